@@ -358,3 +358,104 @@ func TestVerifReplay(t *testing.T) {
 	l.Close()
 }
 `
+
+// wrapReplayTest (C12): the protocol core is run across the 2^32 and 2^31 boundaries of the
+// sequence-number space and of the millisecond clock (two in-memory endpoints, every 7th
+// datagram dropped so that retransmission, fast ack and the reorder heap are exercised) and
+// must deliver exactly what an unshifted run delivers.
+const wrapReplayTest = `package kcp
+
+import (
+	"bytes"
+	"fmt"
+	"testing"
+	"time"
+)
+
+func verifWrapRun(seqStart uint32, clockStart uint32) (string, error) {
+	saved := refTime
+	defer func() { refTime = saved }()
+	refTime = time.Now().Add(-time.Duration(clockStart) * time.Millisecond)
+	var a, b *KCP
+	na, nb := 0, 0
+	a = NewKCP(7, func(buf []byte, size int) {
+		na++
+		if na%%7 == 3 {
+			return
+		}
+		b.Input(append([]byte(nil), buf[:size]...), IKCP_PACKET_REGULAR, false)
+	})
+	b = NewKCP(7, func(buf []byte, size int) {
+		nb++
+		if nb%%7 == 5 {
+			return
+		}
+		a.Input(append([]byte(nil), buf[:size]...), IKCP_PACKET_REGULAR, false)
+	})
+	for _, k := range []*KCP{a, b} {
+		k.NoDelay(1, 10, 2, 1)
+		k.WndSize(64, 64)
+		k.snd_una, k.snd_nxt, k.rcv_nxt = seqStart, seqStart, seqStart
+	}
+	var sent, got bytes.Buffer
+	const msgs = 300
+	deadline := time.Now().Add(6 * time.Second)
+	next := 0
+	buf := make([]byte, 4096)
+	for got.Len() < msgs*40 {
+		if time.Now().After(deadline) {
+			return got.String(), fmt.Errorf("transfer stalled after %%d of %%d bytes", got.Len(), msgs*40)
+		}
+		for next < msgs && a.WaitSnd() < 32 {
+			m := []byte(fmt.Sprintf("%%039d.", next))
+			sent.Write(m)
+			a.Send(m)
+			next++
+		}
+		a.Update()
+		b.Update()
+		for {
+			n := b.PeekSize()
+			if n <= 0 {
+				break
+			}
+			n = b.Recv(buf)
+			if n <= 0 {
+				break
+			}
+			got.Write(buf[:n])
+		}
+		time.Sleep(2 * time.Millisecond)
+	}
+	if !bytes.Equal(sent.Bytes()[:got.Len()], got.Bytes()) {
+		return got.String(), fmt.Errorf("delivered bytes are not a prefix of the sent bytes")
+	}
+	return got.String(), nil
+}
+
+func TestVerifReplay(t *testing.T) {
+	ref, err := verifWrapRun(0, 1000)
+	if err != nil {
+		t.Fatalf("unshifted run failed (not a wrap-around effect): %%v", err)
+	}
+	cases := []struct {
+		name       string
+		seq, clock uint32
+	}{
+		{"sequence numbers cross 2^32", 0xffffffff - 40, 1000},
+		{"sequence numbers cross 2^31", 0x7fffffff - 40, 1000},
+		{"clock crosses 2^32", 0, 0xffffffff - 400},
+		{"clock crosses 2^31", 0, 0x7fffffff - 400},
+		{"both cross 2^32", 0xffffffff - 40, 0xffffffff - 400},
+	}
+	for _, c := range cases {
+		got, err := verifWrapRun(c.seq, c.clock)
+		if err != nil {
+			t.Fatalf("REPLAY-REPRODUCED: %%s: %%v", c.name, err)
+		}
+		if got != ref {
+			t.Fatalf("REPLAY-REPRODUCED: %%s: delivered data differs from the unshifted run", c.name)
+		}
+	}
+}
+`
